@@ -6,6 +6,13 @@ package main
 // Emitter.PC() recorded before the corresponding call, the first bus access of the step must be the opcode
 // fetch at that address, and after the last instruction M / X must equal not IsM16bit / not IsX16bit; an
 // immediate method must panic exactly when its operand size disagrees with the tracked width.
+// A program may contain the emitter's conditional-branch methods (rel8 and label-taking forms): a pilot of each
+// interpreter is stepped while the program is being assembled, and a branch is only emitted when its condition is false
+// in the current flags of both pilots (own statement of the conditions, cplCond) -- such a branch is straight-line in the property's sense.
+// Half of the programs are run on the bytes as patched by Finalize (label operands resolved or not), the other half
+// on the placeholders: a branch that is not taken must not care.
+// A program may also contain the block move MVN (at most two): the CPU then fetches the instruction's own start again
+// and again until the count runs out; the falsifier allows exactly that repetition and nothing else.
 // Tie: every program is also printed (calls, arguments, PC() before each call, refusals, final flags,
 // bytes) so that the check can have Coq replay it on Model/Emitter.v through the regenerated descriptors.
 
@@ -19,7 +26,20 @@ import (
 	"strings"
 
 	"github.com/alttpo/snes/asm"
+	"github.com/alttpo/snes/emulator/cpu65c816"
+	"github.com/alttpo/snes/emulator/cpualt"
 )
+
+// conditional branches: which flag, and the value of it under which the branch is TAKEN (WDC instruction set)
+type cplCondT struct {
+	flag  byte
+	taken byte
+}
+
+var cplCond = map[string]cplCondT{
+	"BPL": {'n', 0}, "BMI": {'n', 1}, "BVC": {'v', 0}, "BVS": {'v', 1},
+	"BCC": {'c', 0}, "BCS": {'c', 1}, "BNE": {'z', 0}, "BEQ": {'z', 1},
+}
 
 // mnemonics that are not straight-line (own statement, from the WDC instruction set)
 var cplNotStraight = map[string]bool{
@@ -41,6 +61,8 @@ type cplMethod struct {
 	params   []reflect.Type
 	straight bool
 	hasLabel bool
+	cond     string // mnemonic, for a conditional branch
+	move     bool   // block move (MVN / MVP)
 	// width requirement by the name convention: 0 none, 8 / 16 operand bits; onX = index registers
 	immBits int
 	onX     bool
@@ -71,6 +93,14 @@ func cplMethods() []cplMethod {
 		}
 		mn := cplMnemonic(m.Name)
 		cm.straight = !cplNotStraight[mn] && !cm.hasLabel
+		if _, ok := cplCond[mn]; ok {
+			cm.cond = mn
+			cm.straight = true // as long as it is not taken
+		}
+		if mn == "MVN" || mn == "MVP" {
+			cm.move = true
+			cm.straight = true // repeats its own start, transfers control nowhere else
+		}
 		suf := ""
 		if i := strings.IndexByte(m.Name, '_'); i >= 0 {
 			suf = m.Name[i+1:]
@@ -101,7 +131,7 @@ func (m *cplMethod) expectRefused(m16, x16 bool) bool {
 
 // one call of the program
 type cplCall struct {
-	kind    byte // 'I' instruction method, 'S' SetBase, 'R' AssumeREP, 'P' AssumeSEP, 'C' Comment, 'L' Label
+	kind    byte // 'I' instruction method, 'B' instruction method taking a label (args = label id), 'S' SetBase, 'R' AssumeREP, 'P' AssumeSEP, 'C' Comment, 'L' Label
 	name    string
 	args    []int64
 	pc      uint32 // Emitter.PC() before the call
@@ -134,6 +164,8 @@ func cplCallMethod(em *asm.Emitter, m *cplMethod, args []int64) (refused bool, m
 		switch m.params[i].Kind() {
 		case reflect.Int8:
 			v.SetInt(a)
+		case reflect.String:
+			v.SetString(cplLabelName(a))
 		default:
 			v.SetUint(uint64(a))
 		}
@@ -141,6 +173,14 @@ func cplCallMethod(em *asm.Emitter, m *cplMethod, args []int64) (refused bool, m
 	}
 	reflect.ValueOf(em).Method(m.idx).Call(in)
 	return
+}
+
+// label ids: 1.. = labels defined by the program ("l<id>"), 1000.. = forward references ("f<id>")
+func cplLabelName(id int64) string {
+	if id >= 1000 {
+		return fmt.Sprintf("f%d", id)
+	}
+	return fmt.Sprintf("l%d", id)
 }
 
 func cplRandArgs(r *cpuRng, m *cplMethod) []int64 {
@@ -177,10 +217,128 @@ type cplProg struct {
 	nIns    int
 	starts  []uint32
 	finalPC uint32
+	isMove  []bool // per accepted instruction: a block move (may be fetched repeatedly)
+	nMove   int
+	patched []byte // Bytes() after Finalize (label operands patched where the label resolved)
+	finErr  string
+	nBranch int
+}
+
+// the pilots: one instance of each interpreter stepped over the program while it is being assembled; their flags
+// decide which conditional branches may be emitted (those whose condition is false on both)
+type cplPilot struct {
+	r       *run65
+	ra      *runAlt
+	none    byte
+	noneAlt byte
+	regs    cplRegs
+	mseed   uint32
+	alive   bool
+	loaded  int
+	base    uint32
+}
+
+func cplSetAlt(c *cpualt.CPU, base uint32, m0, x0 byte, regs cplRegs, none byte) {
+	c.RK, c.PC = byte(base>>16), uint16(base)
+	c.M, c.X, c.E, c.Interrupt = m0, x0, 0, none
+	c.RA, c.RX, c.RY, c.SP, c.RD, c.RDBR = regs.ra, regs.rx, regs.ry, regs.sp, regs.rd, regs.dbr
+	c.RAl, c.RAh, c.RXl, c.RYl = byte(regs.ra), byte(regs.ra>>8), byte(regs.rx), byte(regs.ry)
+	if x0 == 1 {
+		c.RX, c.RY = c.RX&0xFF, c.RY&0xFF
+	}
+	c.C, c.Z, c.I, c.D, c.V, c.N = regs.c, regs.z, regs.i, regs.d, regs.v, regs.n
+	c.Stopped, c.OnWDM, c.OnPC = false, nil, nil
+}
+
+func cplSet65(c *cpu65c816.CPU, base uint32, m0, x0 byte, regs cplRegs, none byte) {
+	c.RK, c.PC = byte(base>>16), uint16(base)
+	c.M, c.X, c.E, c.Interrupt = m0, x0, 0, none
+	c.RA, c.RX, c.RY, c.SP, c.RD, c.RDBR = regs.ra, regs.rx, regs.ry, regs.sp, regs.rd, regs.dbr
+	c.RAl, c.RAh, c.RXl, c.RYl = byte(regs.ra), byte(regs.ra>>8), byte(regs.rx), byte(regs.ry)
+	if x0 == 1 {
+		c.RX, c.RY = c.RX&0xFF, c.RY&0xFF
+	}
+	c.C, c.Z, c.I, c.D, c.V, c.N = regs.c, regs.z, regs.i, regs.d, regs.v, regs.n
+	c.Stopped, c.OnWDM, c.OnPC = false, nil, nil
+}
+
+func (pl *cplPilot) start(base uint32, m0, x0 byte) {
+	pl.r.mem.seed = pl.mseed
+	pl.r.mem.ov = map[uint32]byte{}
+	pl.r.mem.trace = nil
+	pl.ra.mem.seed = pl.mseed
+	pl.ra.mem.ov = map[uint32]byte{}
+	pl.ra.mem.trace = nil
+	pl.base, pl.loaded, pl.alive = base, 0, true
+	cplSet65(pl.r.cpu, base, m0, x0, pl.regs, pl.none)
+	cplSetAlt(pl.ra.cpu, base, m0, x0, pl.regs, pl.noneAlt)
+}
+
+// step: load what the assembler appended since the last call, execute one instruction
+func (pl *cplPilot) step(code []byte) {
+	if !pl.alive {
+		return
+	}
+	for ; pl.loaded < len(code); pl.loaded++ {
+		pl.r.mem.ov[pl.base+uint32(pl.loaded)] = code[pl.loaded]
+		pl.ra.mem.ov[pl.base+uint32(pl.loaded)] = code[pl.loaded]
+	}
+	defer func() {
+		if e := recover(); e != nil {
+			pl.alive = false
+		}
+	}()
+	pl.r.mem.trace = pl.r.mem.trace[:0]
+	pl.ra.mem.trace = pl.ra.mem.trace[:0]
+	pl.r.cpu.Step()
+	pl.ra.cpu.Step()
+}
+
+// stepMove: a block move repeats itself; step the pilots until both have left it (bounded by the 16-bit count)
+func (pl *cplPilot) stepMove(code []byte, at uint32) {
+	pl.step(code)
+	for i := 0; i < 0x10000 && pl.alive; i++ {
+		a := uint32(pl.r.cpu.RK)<<16 | uint32(pl.r.cpu.PC)
+		b := uint32(pl.ra.cpu.RK)<<16 | uint32(pl.ra.cpu.PC)
+		if a != at && b != at {
+			return
+		}
+		func() {
+			defer func() {
+				if e := recover(); e != nil {
+					pl.alive = false
+				}
+			}()
+			if a == at {
+				pl.r.cpu.Step()
+			}
+			if b == at {
+				pl.ra.cpu.Step()
+			}
+		}()
+	}
+}
+
+// notTaken: would this conditional branch fall through in the pilot's current state?
+func (pl *cplPilot) notTaken(mn string) bool {
+	c, ca := pl.r.cpu, pl.ra.cpu
+	cd := cplCond[mn]
+	var f, fa byte
+	switch cd.flag {
+	case 'n':
+		f, fa = c.N, ca.N
+	case 'v':
+		f, fa = c.V, ca.V
+	case 'c':
+		f, fa = c.C, ca.C
+	case 'z':
+		f, fa = c.Z, ca.Z
+	}
+	return f != cd.taken && fa != cd.taken
 }
 
 // cplGen assembles one random straight-line program with the real Emitter
-func cplGen(r *cpuRng, id int, ms []cplMethod, straightIdx []int, maxlen int, endAt int) *cplProg {
+func cplGen(r *cpuRng, id int, ms []cplMethod, straightIdx []int, maxlen int, endAt int, pl *cplPilot) *cplProg {
 	p := &cplProg{id: id}
 	nwant := 1 + r.n(maxlen)
 	p.capLen = 4*nwant + r.n(8)
@@ -224,7 +382,16 @@ func cplGen(r *cpuRng, id int, ms []cplMethod, straightIdx []int, maxlen int, en
 		p.x0 = 0
 	}
 	p.base = em.PC()
+	pl.start(p.base, p.m0, p.x0)
 	labels := 0
+	fwd := 1000
+	var fwdUsed []int64
+	var condIdx []int
+	for _, i := range straightIdx {
+		if ms[i].cond != "" {
+			condIdx = append(condIdx, i)
+		}
+	}
 	for p.nIns < nwant {
 		k := r.n(100)
 		switch {
@@ -257,6 +424,7 @@ func cplGen(r *cpuRng, id int, ms []cplMethod, straightIdx []int, maxlen int, en
 			if !c.refused {
 				p.nIns++
 				p.starts = append(p.starts, c.pc)
+				pl.step(em.Bytes())
 			}
 		case k < 30: // a truthful Assume call: it does not change the tracked M / X
 			cur := uint8(em.Flags())
@@ -282,8 +450,53 @@ func cplGen(r *cpuRng, id int, ms []cplMethod, straightIdx []int, maxlen int, en
 			if m.name == "REP" || m.name == "SEP" {
 				continue
 			}
+			if m.cond != "" {
+				// a conditional branch: only one that falls through in the pilot's current state
+				if !pl.alive {
+					continue
+				}
+				var ok []int
+				for _, i := range condIdx {
+					if pl.notTaken(ms[i].cond) {
+						ok = append(ok, i)
+					}
+				}
+				if len(ok) == 0 {
+					continue
+				}
+				m = &ms[ok[r.n(len(ok))]]
+				c := cplCall{kind: 'I', name: m.name, pc: em.PC(), isIns: true}
+				if m.hasLabel {
+					c.kind = 'B'
+					lid := int64(0)
+					if labels > 0 && r.n(2) == 0 {
+						lid = int64(1 + r.n(labels)) // backward reference
+					} else if len(fwdUsed) > 0 && r.n(3) == 0 {
+						lid = fwdUsed[r.n(len(fwdUsed))]
+					} else {
+						lid = int64(fwd)
+						fwd++
+						fwdUsed = append(fwdUsed, lid)
+					}
+					c.args = []int64{lid}
+				} else {
+					c.args = cplRandArgs(r, m)
+				}
+				c.refused, _ = cplCallMethod(em, m, c.args)
+				record(c)
+				if !c.refused {
+					p.nIns++
+					p.nBranch++
+					p.starts = append(p.starts, c.pc)
+					pl.step(em.Bytes())
+				}
+				continue
+			}
 			if m.expectRefused(em.IsM16bit(), em.IsX16bit()) && r.n(100) < 85 {
 				continue // mostly pick calls the assembler accepts; sometimes a wrong-width one (must be refused)
+			}
+			if m.move && (p.nMove >= 2 || r.n(3) != 0) {
+				continue // a block move can take 65536 steps: at most two per program
 			}
 			c := cplCall{kind: 'I', name: m.name, args: cplRandArgs(r, m), pc: em.PC(), isIns: true}
 			c.refused, _ = cplCallMethod(em, m, c.args)
@@ -291,12 +504,44 @@ func cplGen(r *cpuRng, id int, ms []cplMethod, straightIdx []int, maxlen int, en
 			if !c.refused {
 				p.nIns++
 				p.starts = append(p.starts, c.pc)
+				if m.move {
+					p.nMove++
+					for len(p.isMove) < len(p.starts)-1 {
+						p.isMove = append(p.isMove, false)
+					}
+					p.isMove = append(p.isMove, true)
+					pl.stepMove(em.Bytes(), c.pc)
+				} else {
+					pl.step(em.Bytes())
+				}
 			}
 		}
+	}
+	// most forward references get their label after the last instruction (the others stay unresolved)
+	for _, lid := range fwdUsed {
+		if r.n(4) != 0 {
+			record(cplCall{kind: 'L', args: []int64{lid}, pc: em.PC()})
+			em.Label(cplLabelName(lid))
+		}
+	}
+	for len(p.isMove) < len(p.starts) {
+		p.isMove = append(p.isMove, false)
 	}
 	p.flags = uint8(em.Flags())
 	p.bytes = append([]byte(nil), em.Bytes()...)
 	p.finalPC = em.PC()
+	// Finalize patches the label operands it can resolve (an error -- unresolved label, branch too far -- leaves the rest)
+	func() {
+		defer func() {
+			if e := recover(); e != nil {
+				p.finErr = fmt.Sprint(e)
+			}
+		}()
+		if err := em.Finalize(); err != nil {
+			p.finErr = err.Error()
+		}
+	}()
+	p.patched = append([]byte(nil), em.Bytes()...)
 	return p
 }
 
@@ -309,7 +554,14 @@ func (p *cplProg) line() string {
 	for i, b := range p.bytes {
 		hx[i] = fmt.Sprint(b)
 	}
-	return fmt.Sprintf("CASE %d cap=%d flags=%d pc=%d calls=%s bytes=%s", p.id, p.capLen, p.flags, p.finalPC, strings.Join(cs, ";"), strings.Join(hx, ","))
+	// positions where Finalize changed a byte (they must all be label operands), as pos:value
+	var df []string
+	for i := range p.patched {
+		if i < len(p.bytes) && p.patched[i] != p.bytes[i] {
+			df = append(df, fmt.Sprintf("%d:%d", i, p.patched[i]))
+		}
+	}
+	return fmt.Sprintf("CASE %d cap=%d flags=%d pc=%d calls=%s bytes=%s patched=%s", p.id, p.capLen, p.flags, p.finalPC, strings.Join(cs, ";"), strings.Join(hx, ","), strings.Join(df, ","))
 }
 
 type cplRegs struct {
@@ -317,6 +569,8 @@ type cplRegs struct {
 	dbr                byte
 	c, z, i, d, v, n   byte
 }
+
+var moveSteps int
 
 type cplOutcome struct {
 	fail    string
@@ -332,17 +586,27 @@ func cplCheckRun(p *cplProg, mem *cpuMem, step func() (panicked bool, msg string
 		if at != p.starts[i] {
 			return cplOutcome{fail: fmt.Sprintf("instruction %d: CPU is about to fetch at %06x, the assembler reported the instruction start %06x", i, at, p.starts[i])}
 		}
-		mem.trace = mem.trace[:0]
-		if pan, msg := step(); pan {
-			return cplOutcome{fail: fmt.Sprintf("instruction %d at %06x: Step panicked: %s", i, at, msg)}
-		}
-		if len(mem.trace) == 0 || mem.trace[0].w || mem.trace[0].a != at {
-			return cplOutcome{fail: fmt.Sprintf("instruction %d: first bus access of the step is not the opcode fetch at %06x", i, at)}
-		}
-		for _, ev := range mem.trace {
-			if ev.kind == 0 && ev.w && ev.a >= lo && ev.a < hi {
-				return cplOutcome{selfMod: true} // the program overwrote itself: outside the property's hypothesis
+		// a block move is executed again and again from its own start (at most 65536 times); anything else once
+		for rep := 0; ; rep++ {
+			mem.trace = mem.trace[:0]
+			if pan, msg := step(); pan {
+				return cplOutcome{fail: fmt.Sprintf("instruction %d at %06x: Step panicked: %s", i, at, msg)}
 			}
+			if len(mem.trace) == 0 || mem.trace[0].w || mem.trace[0].a != at {
+				return cplOutcome{fail: fmt.Sprintf("instruction %d: first bus access of the step is not the opcode fetch at %06x", i, at)}
+			}
+			for _, ev := range mem.trace {
+				if ev.kind == 0 && ev.w && ev.a >= lo && ev.a < hi {
+					return cplOutcome{selfMod: true} // the program overwrote itself: outside the property's hypothesis
+				}
+			}
+			if !p.isMove[i] || pc() != at {
+				break
+			}
+			if rep >= 0x10000 {
+				return cplOutcome{fail: fmt.Sprintf("instruction %d at %06x: the block move is still repeating itself after 65536 steps", i, at)}
+			}
+			moveSteps++
 		}
 	}
 	if at := pc(); p.finalPC&0xFFFF != 0 && at != p.finalPC {
@@ -362,10 +626,10 @@ func cplCheckRun(p *cplProg, mem *cpuMem, step func() (panicked bool, msg string
 	return cplOutcome{}
 }
 
-func cplLoad(mem *cpuMem, p *cplProg, seed uint32) {
+func cplLoad(mem *cpuMem, p *cplProg, code []byte, seed uint32) {
 	mem.seed = seed
 	mem.ov = map[uint32]byte{}
-	for i, b := range p.bytes {
+	for i, b := range code {
 		mem.ov[p.base+uint32(i)] = b
 	}
 	mem.trace = nil
@@ -433,21 +697,40 @@ func cplCmd(args []string) int {
 	r65 := newRun65()
 	ralt := newRunAlt()
 	// the value of "no interrupt pending" is what a Step leaves behind
-	cplLoad(r65.mem, &cplProg{bytes: []byte{0xEA}}, 1)
+	cplLoad(r65.mem, &cplProg{}, []byte{0xEA}, 1)
 	r65.cpu.Step()
 	none65 := r65.cpu.Interrupt
-	cplLoad(ralt.mem, &cplProg{bytes: []byte{0xEA}}, 1)
+	cplLoad(ralt.mem, &cplProg{}, []byte{0xEA}, 1)
 	ralt.cpu.Step()
 	noneAlt := ralt.cpu.Interrupt
 	methodHits := map[string]int{}
+	pilot := &cplPilot{r: newRun65(), ra: newRunAlt(), none: none65, noneAlt: noneAlt}
 	for id := 0; id < *nprog; id++ {
 		r := &cpuRng{s: *seed*1000003 + uint64(id)*7919 + 17}
-		p := cplGen(r, id, ms, straightIdx, *maxlen, -1)
+		// the CPU's initial registers and the memory content are drawn first: the pilot needs them while assembling
+		regs := cplRegs{ra: uint16(r.v16()), rx: uint16(r.v16()), ry: uint16(r.v16()), sp: uint16(r.v16()), rd: uint16(r.v16()), dbr: byte(r.v8()),
+			c: byte(r.n(2)), z: byte(r.n(2)), i: byte(r.n(2)), d: 0, v: byte(r.n(2)), n: byte(r.n(2))}
+		if r.n(3) > 0 {
+			regs.rd &= 0xFF00 // often a page-aligned direct page
+		}
+		mseed := uint32(r.next())
+		usePatched := r.n(2) == 0
+		pilot.regs, pilot.mseed = regs, mseed
+		r1 := *r
+		p := cplGen(r, id, ms, straightIdx, *maxlen, -1, pilot)
 		if id%8 == 5 {
 			// same draws, base chosen so that the last byte of the program is the last byte of the bank
-			r2 := &cpuRng{s: *seed*1000003 + uint64(id)*7919 + 17}
-			p = cplGen(r2, id, ms, straightIdx, *maxlen, len(p.bytes))
-			*r = *r2
+			// (the pilots' flags may depend on the base, hence the branches chosen and the length: then keep the first program)
+			r2 := r1
+			p2 := cplGen(&r2, id, ms, straightIdx, *maxlen, len(p.bytes), pilot)
+			if len(p2.bytes) == len(p.bytes) {
+				p = p2
+				*r = r2
+			}
+		}
+		if (p.base&0xFFFF)+uint32(len(p.bytes)) > 0x10000 {
+			stats["crosses_bank_end_skipped"]++ // outside the property's hypothesis (cannot happen by construction)
+			continue
 		}
 		if *only >= 0 && id != *only {
 			continue
@@ -475,25 +758,26 @@ func cplCmd(args []string) int {
 		if p.finalPC&0xFFFF == 0 {
 			stats["ends_at_bank_end"]++
 		}
-		regs := cplRegs{ra: uint16(r.v16()), rx: uint16(r.v16()), ry: uint16(r.v16()), sp: uint16(r.v16()), rd: uint16(r.v16()), dbr: byte(r.v8()),
-			c: byte(r.n(2)), z: byte(r.n(2)), i: byte(r.n(2)), d: 0, v: byte(r.n(2)), n: byte(r.n(2))}
-		if r.n(3) > 0 {
-			regs.rd &= 0xFF00 // often a page-aligned direct page
+		stats["block_moves"] += p.nMove
+		stats["branches_not_taken"] += p.nBranch
+		if p.nBranch > 0 {
+			stats["programs_with_branches"]++
 		}
-		mseed := uint32(r.next())
+		code := p.bytes
+		if usePatched {
+			code = p.patched
+			stats["runs_on_finalized_bytes"]++
+			for i := range p.patched {
+				if p.patched[i] != p.bytes[i] {
+					stats["label_operands_patched"]++
+				}
+			}
+		}
 		// cpu65c816
 		{
-			cplLoad(r65.mem, p, mseed)
+			cplLoad(r65.mem, p, code, mseed)
 			c := r65.cpu
-			c.RK, c.PC = byte(p.base>>16), uint16(p.base)
-			c.M, c.X, c.E, c.Interrupt = p.m0, p.x0, 0, none65
-			c.RA, c.RX, c.RY, c.SP, c.RD, c.RDBR = regs.ra, regs.rx, regs.ry, regs.sp, regs.rd, regs.dbr
-			c.RAl, c.RAh, c.RXl, c.RYl = byte(regs.ra), byte(regs.ra>>8), byte(regs.rx), byte(regs.ry)
-			if p.x0 == 1 {
-				c.RX, c.RY = c.RX&0xFF, c.RY&0xFF
-			}
-			c.C, c.Z, c.I, c.D, c.V, c.N = regs.c, regs.z, regs.i, regs.d, regs.v, regs.n
-			c.Stopped, c.OnWDM, c.OnPC = false, nil, nil
+			cplSet65(c, p.base, p.m0, p.x0, regs, none65)
 			o := cplCheckRun(p, r65.mem, func() (pan bool, msg string) {
 				defer func() {
 					if e := recover(); e != nil {
@@ -517,17 +801,9 @@ func cplCmd(args []string) int {
 		}
 		// cpualt
 		{
-			cplLoad(ralt.mem, p, mseed)
+			cplLoad(ralt.mem, p, code, mseed)
 			c := ralt.cpu
-			c.RK, c.PC = byte(p.base>>16), uint16(p.base)
-			c.M, c.X, c.E, c.Interrupt = p.m0, p.x0, 0, noneAlt
-			c.RA, c.RX, c.RY, c.SP, c.RD, c.RDBR = regs.ra, regs.rx, regs.ry, regs.sp, regs.rd, regs.dbr
-			c.RAl, c.RAh, c.RXl, c.RYl = byte(regs.ra), byte(regs.ra>>8), byte(regs.rx), byte(regs.ry)
-			if p.x0 == 1 {
-				c.RX, c.RY = c.RX&0xFF, c.RY&0xFF
-			}
-			c.C, c.Z, c.I, c.D, c.V, c.N = regs.c, regs.z, regs.i, regs.d, regs.v, regs.n
-			c.Stopped, c.OnWDM, c.OnPC = false, nil, nil
+			cplSetAlt(c, p.base, p.m0, p.x0, regs, noneAlt)
 			o := cplCheckRun(p, ralt.mem, func() (pan bool, msg string) {
 				defer func() {
 					if e := recover(); e != nil {
@@ -550,6 +826,7 @@ func cplCmd(args []string) int {
 			}
 		}
 	}
+	stats["block_move_repetitions"] = moveSteps
 	stats["methods_straight"] = len(straightIdx)
 	stats["methods_excluded"] = len(excluded)
 	stats["methods_hit"] = len(methodHits)
